@@ -632,13 +632,18 @@ def p_tracing(prop, c):
 
 def check_C19(tier, seed, replay):
     res, runs, cases = generic(
-        "C19", ["ops", "memo", "lr", "user"], tier, seed, replay, [p_tracing],
+        "C19", ["ops", "memo", "lr", "user", "uni"], tier, seed, replay, [p_tracing],
         "operator, memo (cache hits), left-recursion (re-evaluation) and user-function (failing checks, externs) "
         "families x all inputs up to the bound, each parsed plainly, with a recording ParseTracer and with the "
         "library's IndentedTracer; non-trivial = at least two rule entries",
         lambda c: sum(1 for h in c.exp.get("hist", []) if h["ev"] == "enter") >= 2,
         require=("MemoHit", "LrHit", "LrGrow", "RuleExit"), indented=True)
-    monitor(res, "C19", "nesting", cases, tier, "NestingMonitor", "unbalanced tracer callbacks or a result changed by tracing")
+    long_cases = [c for r in runs for c in r.real_only]
+    for c in long_cases:
+        c.fam = next(r.fam for r in runs if c in r.real_only)
+        res.add(p_tracing("C19", c))
+    res.coverage["long_inputs_real_only"] = len(long_cases)
+    monitor(res, "C19", "nesting", cases + long_cases, tier, "NestingMonitor", "unbalanced tracer callbacks or a result changed by tracing")
     return res
 
 
@@ -1082,9 +1087,43 @@ def check_C15(tier, seed, replay):
             f.write(text)
         return {"lib": run_door([front, "lib", pth, "-"]), "cli": run_door([cli, pth])}
 
+    # directory mode: one invalid grammar among valid ones, at every position of the listing and nested
+    good = "@export\nS = 'a' [x:B];\nB = 'b';\n"
+    bads = [("syntax", "@export\nS = 'a' (;\n"), ("restriction", "@export\nS = !(x:B) 'a';\nB = 'b';\n")]
+    dir_cases = []
+    for bn, btxt in bads:
+        for pos in range(3):
+            for nested in (False, True):
+                dname = os.path.join(tdir, "dir_%s_%d_%s" % (bn, pos, "nested" if nested else "flat"))
+                import shutil
+                shutil.rmtree(dname, ignore_errors=True)
+                os.makedirs(os.path.join(dname, "sub") if nested else dname)
+                for i, nm in enumerate(("a", "b", "c")):
+                    base = os.path.join(dname, "sub") if (nested and i == pos) else dname
+                    with open(os.path.join(base, nm + ".ebnf"), "w") as f:
+                        f.write(btxt if i == pos else good)
+                dir_cases.append(("dir_%s_pos%d_%s" % (bn, pos, "nested" if nested else "flat"), dname, "error"))
+    dname = os.path.join(tdir, "dir_allgood")
+    os.makedirs(dname, exist_ok=True)
+    for nm in ("a", "b"):
+        open(os.path.join(dname, nm + ".ebnf"), "w").write(good)
+    dir_cases.append(("dir_all_valid", dname, "code"))
+    if replay:
+        dir_cases = [c for c in dir_cases if c[0] == json.load(open(replay)).get("name")]
     with ThreadPoolExecutor(max_workers=vlib.NCPU) as ex:
         outs = list(ex.map(run_case, cases))
         routs = list(ex.map(run_robust, robust))
+        douts = list(ex.map(lambda c: run_door([front, "compiledir", c[1]]), dir_cases))
+    for (name, dname, expect), r in zip(dir_cases, douts):
+        fail = door_failure(r)
+        if fail:
+            res.add(Violation("C15", "Answers", "Compile::directory %s on %s" % (fail, name), None, {"name": name, "site": "compiledir:" + name}))
+            continue
+        got = "code" if r["out"].startswith("ok") else "error"
+        if got != expect:
+            res.add(Violation("C15", "Verdict", "Compile::directory answers %s for %s although %s" % (
+                "Ok" if got == "code" else "Err", name, "one grammar of the directory is invalid" if expect == "error" else "all grammars are valid"),
+                None, {"name": name, "site": "compiledir:" + name, "observed": r}))
     nontriv = 0
     for (gid, name, text, derives, expect, answer_only), o in zip(cases, outs):
         if expect == "error":
@@ -1127,8 +1166,8 @@ def check_C15(tier, seed, replay):
                                   {"name": name, "door": door, "grammar": text[:2000], "observed": o[door],
                                    "site": "%s:%s" % (door, kind if kind != "mutated" else name)}))
     res.coverage = {
-        "states": t["distinct"], "transitions": max(t["states"], 1), "traces_validated_against_impl": len(cases) * 3 + len(robust) * 2,
-        "evaluations": len(cases) * 3 + len(robust) * 2, "distinct_nontrivial": nontriv,
+        "states": t["distinct"], "transitions": max(t["states"], 1), "traces_validated_against_impl": len(cases) * 3 + len(robust) * 2 + len(dir_cases),
+        "evaluations": len(cases) * 3 + len(robust) * 2 + len(dir_cases), "distinct_nontrivial": nontriv,
         "rule": "per documented restriction: violating grammars in varied contexts and nearest valid neighbours, include "
                 "graphs on three rules, identifier spellings, derive sets (verdict by CompileFront.tla) through the "
                 "library, Compile::run and peginator-cli, each case in its own process; plus seeded mutations / truncations "
